@@ -320,3 +320,87 @@ def expected_field_values(s, lv, lay, v, path, big, out):
             expected_field_values(s, g, lay["groups"][gi]["level"], e, sub, big, out)
     for di, d in enumerate(lv.data):
         out["getd %s %d" % (path, di)] = hx(v["data"][di])
+
+
+def composite_visit_kinds(s, type_name):
+    """callback kinds (T/E/S/C) sbepp::visit_children must report for a named composite:
+    its non-constant direct members in schema order"""
+    out = ""
+    for mem in s.types[type_name].members:
+        off, const, r = s.member_triple(mem)
+        if const:
+            continue
+        tgt = mem
+        while tgt.kind == "ref":
+            if tgt.ref in PSIZE:
+                break
+            tgt = s.types[tgt.ref]
+        kind = tgt.kind if tgt.kind != "ref" else "type"
+        out += {"type": "T", "enum": "E", "set": "S", "composite": "C"}[kind]
+    return out or "-"
+
+
+def prepare_fixed(s, configs):
+    """like prepare_schema for a hand-built Schema"""
+    mc = MsgCase(s, {})
+    xml = schema_to_xml(s)
+    mc.xml = xml
+    inc, rc, out = gen_headers(s.package, xml)
+    if rc != 0:
+        mc.error = ("sbeppc-rejected", out)
+        return mc
+    mc.inc = inc
+    drv = msgdrv.gen_driver_cpp(s)
+    ddir = os.path.join(os.path.dirname(inc), "drv")
+    os.makedirs(ddir, exist_ok=True)
+    src = os.path.join(ddir, "driver.cpp")
+    if not os.path.exists(src) or open(src).read() != drv:
+        open(src, "w").write(drv)
+    for (cxx, std, flags, defs) in configs:
+        try:
+            mc.exes[(cxx, std)] = cached_cpp("msgdrv", src, std=std, cxx=cxx, flags=flags, includes=(inc,),
+                                             defines=defs, extra_hash=hash_files(tree_files(inc)))
+        except BuildError as e:
+            mc.error = ("driver-build:%s:%s" % (cxx, std), str(e))
+            return mc
+    return mc
+
+
+def composites_schema():
+    """composites with every member flavour: inline type / enum / set / nested composite, refs to
+    each, inline constants, refs to constant types, an all-constant composite"""
+    s = Schema("hs_comp", big_endian=False, sid=11)
+    s.add(TypeDef("messageHeader", "composite", members=[TypeDef(n, "type", prim="uint16") for n in ("blockLength", "templateId", "schemaId", "version")]))
+    s.add(TypeDef("dim", "composite", members=[TypeDef("blockLength", "type", prim="uint16"), TypeDef("numInGroup", "type", prim="uint16")]))
+    s.add(TypeDef("K16", "type", prim="uint16", presence="constant", const_value="7"))
+    s.add(TypeDef("T32", "type", prim="uint32"))
+    s.add(TypeDef("A3", "type", prim="char", length=3))
+    s.add(TypeDef("E8", "enum", prim="uint8", values=[("One", "1"), ("Two", "2")]))
+    s.add(TypeDef("S16", "set", prim="uint16", values=[("c0", "0"), ("c9", "9")]))
+    s.add(TypeDef("Inner", "composite", members=[TypeDef("a", "type", prim="int8"), TypeDef("b", "type", prim="int64")]))
+    s.add(TypeDef("Mixed", "composite", members=[
+        TypeDef("mantissa", "type", prim="int64"),
+        TypeDef("exponent", "ref", ref="K16"),
+        TypeDef("ik", "type", prim="uint8", presence="constant", const_value="3"),
+        TypeDef("qty", "ref", ref="T32"),
+        TypeDef("arr", "ref", ref="A3"),
+        TypeDef("side", "ref", ref="E8"),
+        TypeDef("flags", "ref", ref="S16"),
+        TypeDef("venue", "ref", ref="K16"),
+        TypeDef("inner", "ref", ref="Inner"),
+        TypeDef("ie", "enum", prim="char", values=[("A", "A"), ("B", "B")]),
+        TypeDef("iset", "set", prim="uint8", values=[("x", "0")]),
+        TypeDef("ic", "composite", members=[TypeDef("p", "type", prim="uint16")]),
+    ]))
+    s.add(TypeDef("AllConst", "composite", members=[
+        TypeDef("k1", "ref", ref="K16"),
+        TypeDef("k2", "type", prim="uint8", presence="constant", const_value="1")]))
+    s.add(TypeDef("LeadConst", "composite", members=[
+        TypeDef("k1", "ref", ref="K16"), TypeDef("x", "type", prim="uint8"), TypeDef("k3", "ref", ref="K16")]))
+    m = Message("MC", 1)
+    m.fields += [Field("mixed", 1, "Mixed"), Field("lead", 2, "LeadConst"), Field("tail", 3, "uint8")]
+    g = Group("g", 10, "dim")
+    g.fields += [Field("gm", 1, "Mixed"), Field("gl", 2, "LeadConst")]
+    m.groups.append(g)
+    s.messages.append(m)
+    return s
